@@ -2,6 +2,7 @@ package props
 
 import (
 	"fmt"
+	"github.com/jotaen/klog/klog/parser"
 	"sort"
 	"strings"
 	"testing"
@@ -365,6 +366,11 @@ func checkC20(c caseC20) (Outcome, error) {
 	}
 	if !valid {
 		if errsV == nil {
+			// whether klog's parser rejects this text is C01's matter; but if it does, `klog json`
+			// must say so
+			if _, _, perrs := parser.NewSerialParser().Parse(text); perrs != nil {
+				return out, fmt.Errorf("klog's parser reports %d error(s) for this text, but `klog json` shows none (errors is null)\ntext: %s\noutput: %s", len(perrs), quoteShort(text), quoteShort(res.Out))
+			}
 			out.Label("not-rejected")
 			return out, nil
 		}
